@@ -123,7 +123,7 @@ Theorem C01_history : forall cfg h t0 script k gq obs o,
 Proof.
   intros cfg h t0 script k gq obs o all L Hk Ho Hr Hnc.
   destruct (history_safeX L cfg h (init_world t0 script)) as [_ H]; [intros k' e' E; discriminate|apply incl_refl|].
-  destruct (H k gq obs o Hk Ho Hr Hnc) as [E|(e & Hs & Hd & E)]; [left; exact E|right].
+  destruct (proj1 (H k gq obs o Hk Ho Hr) Hnc) as [E|(e & Hs & Hd & E)]; [left; exact E|right].
   exists e. split; [exact Hs|split; [exact E|]]. intros Hv.
   apply decision_fresh_or_allowed; [exact Hv|eapply Src_status; exact Hs|exact Hd].
 Qed.
